@@ -7,6 +7,8 @@ import (
 
 // CollectionDecls are helper declarations used by the collection items (same text both sides).
 const CollectionDecls = `
+var rlo0, rhi6, rst2 = 0, 6, 2
+
 func show(a int, b int) {
 	fmt.Println("  show", a, b)
 }
@@ -44,11 +46,12 @@ func (b *box) put2(v int, tag string) {
 `
 
 type phrase struct {
-	key, val string // loop variables ("" = absent)
-	kind     string // list | map | range | strlist
-	cx, cg   string // container spellings
-	lo, hi   int    // for range
-	filter   string // "" = none (same text both sides)
+	key, val      string // loop variables ("" = absent)
+	kind          string // list | map | range | strlist
+	cx, cg        string // container spellings
+	lo, hi        int    // for range
+	rlo, rhi, rst string // range with expression operands (non-empty: used instead of lo/hi)
+	filter        string // "" = none (same text both sides)
 }
 
 func (p phrase) intVars() []string {
@@ -87,7 +90,11 @@ func (p phrase) gOpen() (string, int) {
 	var s string
 	switch p.kind {
 	case "range":
-		s = fmt.Sprintf("for %s := %d; %s < %d; %s++ {\n", p.val, p.lo, p.val, p.hi, p.val)
+		if p.rlo != "" { // operands are expressions: evaluated once, in order, before the loop
+			s = fmt.Sprintf("for %s, %s_hi, %s_st := %s, %s, %s; %s < %s_hi; %s += %s_st {\n", p.val, p.val, p.val, p.rlo, p.rhi, p.rst, p.val, p.val, p.val, p.val)
+		} else {
+			s = fmt.Sprintf("for %s := %d; %s < %d; %s++ {\n", p.val, p.lo, p.val, p.hi, p.val)
+		}
 	default:
 		k := "_"
 		if p.key != "" {
@@ -160,6 +167,20 @@ func (g *G) phrases(outer []string, max int, allowMap bool) []phrase {
 			p.cx = fmt.Sprintf("%d:%d", p.lo, p.hi)
 			if p.lo == 0 && g.Chance(50, "omitlo") {
 				p.cx = fmt.Sprintf(":%d", p.hi)
+			}
+			if g.Chance(50, "exprrange") {
+				// each operand independently a literal, a variable or a traced call; positive step
+				operand := func(lit int, v string) string {
+					switch g.Intn(3, "opform") {
+					case 0:
+						return fmt.Sprint(lit)
+					case 1:
+						return v
+					}
+					return fmt.Sprintf("t(%q, %d)", g.Tag(), lit)
+				}
+				p.rlo, p.rhi, p.rst = operand(g.Intn(3, "rlo"), "rlo0"), operand(3+g.Intn(5, "rhi"), "rhi6"), operand(1+g.Intn(3, "rst"), "rst2")
+				p.cx = p.rlo + ":" + p.rhi + ":" + p.rst
 			}
 		}
 		ps[i] = p
